@@ -36,6 +36,10 @@ Accesses == {
   \* PID loop state of a PID curve (no lock): raced by two control loops that share the curve
   A("pidLoopState", "ControlLoop", "PidLoop", "W", {}),
   A("pidLoopState", "ApiRequest", "Api", "R", {}),
+  \* state of a fan's own control loop (PID / direct): no lock - and none needed, it belongs to one controller and is
+  \* touched by that controller's control-loop goroutine only (NOT shared across instances: a report here means two
+  \* controllers were given the same loop object)
+  A("ctlLoopState", "ControlLoop", "CtlLoop", "W", {}),
   \* fan object fields (Rpm, Pwm, RpmMovingAvg, limits, curve data pointer): no lock at all
   A("fanFields", "RpmMonitor", "Fan", "W", {}),
   A("fanFields", "ControlLoop", "Fan", "W", {}),
